@@ -20,7 +20,7 @@ import struct
 from . import valcodec
 from .net import Net, BUS
 
-STREAMS = ['net-exhaustive', 'net-random', 'net-spy', 'net-corpus']
+STREAMS = ['net-exhaustive', 'net-random', 'net-revisions', 'net-spy', 'net-corpus']
 THEOREMS = ['link_refinement', 'call_stage_invariant', 'call_in_exactly_one_stage', 'queues_hold_only_issued_calls',
             'C11_end_to_end', 'quiescence_reachable', 'C11_completion_always_reachable',
             'C11_returns_what_it_returned', 'prefix_model_violates']
@@ -305,6 +305,41 @@ def gen_scenario(rng, small=False):
             if rng.random() < 0.5:
                 plans[0][rng.randrange(len(plans[0]))] = 'relay'
     return scn
+
+
+def gen_revision_scenario(rng):
+    """Two exporters export revision 1 / revision 2 of ONE interface name.  The caller first introspects the
+    revision-1 object (which leaves the parsed revision 1 in the process-wide DBusInterface.knownInterfaces
+    cache), then builds an EXPLICIT proxy for the revision-2 object from its own DBusInterface instance
+    (made with noRegister=True, or a plain one) and calls methods that differ between the revisions.  An
+    explicit declaration must be used as given, whatever the cache holds under that name."""
+    n = rng.choice([2, 3, 3])
+    name = 'org.t.Rev'
+    pool = [x for x in SIG_POOL if x]
+    so1, so2 = rng.sample(pool, 2)
+    si = rng.choice(SIG_POOL)
+    g_in = rng.choice(['s', 'i', 'as'])
+    rev1 = [['common', si, so1, False], ['only1', rng.choice(SIG_POOL), rng.choice(SIG_POOL), False],
+            ['grown', g_in, 's', False]]
+    rev2 = [['common', si, so2, rng.random() < 0.5], ['only2', rng.choice(SIG_POOL), rng.choice(SIG_POOL), False],
+            ['grown', g_in + rng.choice(['i', 's']), 's', False]]
+    a, b = rng.randrange(n), rng.randrange(n)
+    exports = [{'client': a, 'path': '/rev/one', 'ifaces': [{'name': name, 'methods': rev1}]},
+               {'client': b, 'path': '/rev/two', 'ifaces': [{'name': name, 'methods': rev2}]}]
+    caller = rng.randrange(n)
+    m1 = rng.choice(rev1)
+    calls = [{'caller': caller, 'export': 0, 'iface': name, 'member': m1[0], 'how': 'introspect', 'wrong': None,
+              'kw': None, 'bad_args': False, 'order': 'decl',
+              'args': [valcodec.to_line(x) for x in gen_body(rng, m1[1])]}]
+    for _ in range(rng.choice([1, 2])):
+        m2 = rng.choice(rev2)
+        calls.append({'caller': caller if rng.random() < 0.8 else rng.randrange(n), 'export': 1, 'iface': name,
+                      'member': m2[0], 'how': 'explicit', 'wrong': None, 'kw': rng.choice([None, name]),
+                      'bad_args': False, 'order': 'decl', 'after': 0, 'register': rng.random() < 0.4,
+                      'args': [valcodec.to_line(x) for x in gen_body(rng, m2[1])]})
+    plans = [[rng.choice(['value', 'value', 'defer-value', 'raise-named']) for _ in range(3)] for _ in exports]
+    return {'n': n, 'exports': exports, 'calls': calls, 'plans': plans, 'vseed': rng.randrange(10**9),
+            'family': 'revisions'}
 
 
 def _dup_member(spec, member):
@@ -730,11 +765,15 @@ class Run:
         def ok(ro):
             call['proxy'] = ro
             self.actions.append(('call', k))
+            for k2 in self.waiting.pop(k, []):
+                self.actions.append(('call', k2))
             net.log.append(('done', 'cli:%d' % c, k, 'proxy', None))
             return ro
 
         def bad(f):
             call['proxy_error'] = f
+            for k2 in self.waiting.pop(k, []):
+                self.actions.append(('call', k2))
             net.log.append(('done', 'cli:%d' % c, k, 'proxy-failed', f))
         d.addCallbacks(ok, bad)
         sends = [e for e in net.log if e[0] == 'send']
@@ -770,7 +809,10 @@ class Run:
                     elif call['wrong'] == 'retsig':
                         so = so + 's'
                 ms.append(Method(name, arguments=si, returns=so))
-            out.append(DBusInterface(i['name'], *ms, noRegister=True))
+            if call.get('register'):
+                out.append(DBusInterface(i['name'], *ms))        # a plain instance: registers itself in the cache
+            else:
+                out.append(DBusInterface(i['name'], *ms, noRegister=True))
         return out
 
     def do_call(self, k, nested=None):
@@ -899,7 +941,11 @@ class Run:
         self.calls = [dict(c) for c in scn['calls']]
         self.intro_serials = {}
         self.actions = []
+        self.waiting = {}
         for k, c in enumerate(self.calls):
+            if c.get('after') is not None:
+                self.waiting.setdefault(c['after'], []).append(k)      # enabled once that proxy exists
+                continue
             self.actions.append(('getproxy', k) if c['how'] in ('introspect', 'byname') else ('call', k))
         guard = 0
         while True:
@@ -982,6 +1028,12 @@ class Run:
                           observed=repr(call.get('proxy_error')), expected='a proxy')
                 continue
             if not call.get('sent'):
+                if (not call['wrong'] and not call['bad_args']
+                        and call.get('issue') in ('attributeError', 'typeError', 'encodeError')):
+                    self.flag('proxy-refuses-declared-method',
+                              'the proxy raised/failed locally (%s) for %s.%s, a method of the declared interface '
+                              'called with arguments of its declared signature' % (call['issue'], call['iface'], call['member']),
+                              observed=call['issue'], expected='the call is sent')
                 continue
             comps = call.get('completions', [])
             invs = call.get('invocations', [])
@@ -1172,6 +1224,12 @@ def run(ctx):
             batch = []
     if batch:
         report(ctx, 'net-random', batch)
+    # ---- two revisions of one interface name on two exporters; explicit proxy after an introspection
+    batch = []
+    for k in range(ctx.scale(quick=40, thorough=400)):
+        scn = gen_revision_scenario(rng)
+        batch.append(random_run(scn, (ctx.seed, 'rev', k, rng.random())))
+    report(ctx, 'net-revisions', batch)
     # ---- the same with a third party holding a catch-all match rule
     batch = []
     for k in range(ctx.scale(quick=40, thorough=400)):
